@@ -507,7 +507,9 @@ META = {
              'PKTIDX/END/padding order (PKTIDX affine in the block ordinal), that read_header stops at the whole END card, '
              'that the DIRECTIO card is tested as a number and not as text, the file split formulas (ceil(n/bpf) files, '
              'remainder only in the last) and that no unsorted directory listing is indexed. Acceptance by an independent '
-             'GUPPI reader is not decided.',
+             'GUPPI reader is not decided. Also decided: non-owned cards (TELESCOP, OBSERVER, SRC_NAME) are assigned by the '
+             'configuration step only when absent or provably inherited from the input recording, and no character of a card '
+             'value is read at a fixed position without a length guard (empty string cards are valid).',
     'note': 'Real arithmetic; f-string format specs compared syntactically; the card counter of each site is identified as its '
             'unique len()/loop-counter atom.',
 }
